@@ -2505,8 +2505,11 @@ func (d *decoderBincBytes) kMap(f *decFnInfo, rv reflect.Value) {
 					rvSetDirect(rvv, reflect.New(vElem))
 				}
 				d.decode(rv2i(rvv))
-			} else {
+			} else if rvv.CanAddr() {
 				d.decode(rv2i(rvAddr(rvv, ti.tielem.ptr)))
+			} else {
+
+				d.decodeValueNoCheckNil(rvv, valFn)
 			}
 		} else {
 			d.decodeValueNoCheckNil(rvv, valFn)
@@ -6619,8 +6622,11 @@ func (d *decoderBincIO) kMap(f *decFnInfo, rv reflect.Value) {
 					rvSetDirect(rvv, reflect.New(vElem))
 				}
 				d.decode(rv2i(rvv))
-			} else {
+			} else if rvv.CanAddr() {
 				d.decode(rv2i(rvAddr(rvv, ti.tielem.ptr)))
+			} else {
+
+				d.decodeValueNoCheckNil(rvv, valFn)
 			}
 		} else {
 			d.decodeValueNoCheckNil(rvv, valFn)
